@@ -133,6 +133,7 @@ struct Ex {
     if (auto *CC = dyn_cast<CXXConstructExpr>(E)) { if (CC->getNumArgs()==1) return "ctor(" + path(CC->getArg(0)) + ")"; if (CC->getNumArgs()==0) return "ctor()"; return "ctor(...)"; }
     if (auto *IL = dyn_cast<InitListExpr>(E)) { if (IL->getNumInits()==0) return "{}"; if (IL->getNumInits()==1) return "{" + path(IL->getInit(0)) + "}"; return "{...}"; }
     if (auto *BO = dyn_cast<BinaryOperator>(E)) return "(" + path(BO->getLHS()) + " " + BO->getOpcodeStr().str() + " " + path(BO->getRHS()) + ")";
+    if (auto *RB = dyn_cast<CXXRewrittenBinaryOperator>(E)) { auto D = RB->getDecomposedForm(); return "(" + path(D.LHS) + " " + BinaryOperator::getOpcodeStr(D.Opcode).str() + " " + path(D.RHS) + ")"; }
     if (auto *CO = dyn_cast<ConditionalOperator>(E)) return "(" + path(CO->getCond()) + " ? " + path(CO->getTrueExpr()) + " : " + path(CO->getFalseExpr()) + ")";
     if (auto *IL = dyn_cast<IntegerLiteral>(E)) return std::to_string(IL->getValue().getLimitedValue());
     if (auto *BL = dyn_cast<CXXBoolLiteralExpr>(E)) return BL->getValue()?"true":"false";
@@ -278,7 +279,10 @@ struct Ex {
     PrePass PP; PP.TraverseStmt(const_cast<Stmt*>(Body));
     ParentMap PM(const_cast<Stmt*>(Body));
     ids.clear(); kept.clear();
-    json::Object F; F["key"] = fkey(FD); F["name"] = fq(FD); F["inst"] = instName(FD); F["coroutine"] = coro;
+    json::Object F; F["key"] = fkey(FD); F["name"] = fq(FD); F["coroutine"] = coro;
+    // closures inside different instantiations of one enclosing template print the same name: qualify with the parent instantiation
+    F["plain_inst"] = instName(FD);
+    if (Parent) { F["parent_inst"] = instName(Parent); F["inst"] = instName(Parent) + " :: " + instName(FD); } else F["inst"] = instName(FD);
     F["lines"] = json::Array{(int64_t)line(FD->getBeginLoc()), (int64_t)line(FD->getEndLoc())};
     if (Parent) F["parent_key"] = fkey(Parent);
     if (auto *MD = dyn_cast<CXXMethodDecl>(FD)) { F["class"] = qname(MD->getParent()); if (MD->getParent()->isLambda()) F["lambda"] = true; F["access"] = (int)MD->getAccess(); F["static"] = MD->isStatic(); F["kind"] = isa<CXXConstructorDecl>(MD)?"ctor":isa<CXXDestructorDecl>(MD)?"dtor":isa<CXXConversionDecl>(MD)?"conv":"method"; F["virtual"] = MD->isVirtual();
@@ -317,6 +321,8 @@ struct Ex {
         } else if (auto *BOp = dyn_cast<BinaryOperator>(S)) {
           if (BOp->isAssignmentOp()) { E["k"]="write"; E["path"]=path(BOp->getLHS()); E["field"]=firstField(BOp->getLHS()); E["lfield"]=lastField(BOp->getLHS()); E["rhs"]=path(BOp->getRHS()); E["op"]=BOp->getOpcodeStr().str(); if (auto v = constVal(BOp->getRHS()); v.kind()!=json::Value::Null) E["const"]=v; int re = evOf(BOp->getRHS()); if (re>=0) E["rhs_ev"]=re; keep = true; }
           else if (BOp->isComparisonOp() || BOp->getOpcode()==BO_And) { E["k"]="cmp"; E["op"]=BOp->getOpcodeStr().str(); E["lhs"]=path(BOp->getLHS()); E["rhs"]=path(BOp->getRHS()); if (auto v = constVal(BOp->getRHS()); v.kind()!=json::Value::Null) E["rconst"]=v; if (auto v = constVal(BOp->getLHS()); v.kind()!=json::Value::Null) E["lconst"]=v; int le = evOf(BOp->getLHS()); if (le>=0) E["lhs_ev"]=le; int re = evOf(BOp->getRHS()); if (re>=0) E["rhs_ev"]=re; keep = true; }
+        } else if (auto *RB = dyn_cast<CXXRewrittenBinaryOperator>(S)) {
+          auto D = RB->getDecomposedForm(); E["k"]="cmp"; E["rewritten"]=true; E["op"]=BinaryOperator::getOpcodeStr(D.Opcode).str(); E["lhs"]=path(D.LHS); E["rhs"]=path(D.RHS); keep = true;
         } else if (auto *UO = dyn_cast<UnaryOperator>(S)) {
           if (UO->isIncrementDecrementOp()) { E["k"]="write"; E["path"]=path(UO->getSubExpr()); E["field"]=firstField(UO->getSubExpr()); E["lfield"]=lastField(UO->getSubExpr()); E["op"]=UnaryOperator::getOpcodeStr(UO->getOpcode()).str(); keep = true; }
         } else if (auto *CE = dyn_cast<CallExpr>(S)) {
@@ -378,7 +384,7 @@ public:
   bool shouldVisitImplicitCode() const { return false; }
   void one(FunctionDecl *FD, const FunctionDecl *Parent) {
     if (!FD || !FD->doesThisDeclarationHaveABody() || FD->isDependentContext() || !X.inRoot(FD->getLocation())) return;
-    std::string key = X.loc(FD->getLocation()) + "|" + instName(FD);
+    std::string key = X.loc(FD->getLocation()) + "|" + (Parent ? instName(Parent) + " :: " : std::string()) + instName(FD);
     if (seen.insert(key).second) X.function(FD, Fns, Parent);
   }
   bool TraverseFunctionDecl(FunctionDecl *FD) { stack.push_back(FD); bool r = RecursiveASTVisitor::TraverseFunctionDecl(FD); stack.pop_back(); return r; }
